@@ -69,7 +69,14 @@ extern "C" void sim_limit_op_budget(uint64_t edges) { TaskCtx* t = sim_cur(); if
 
 extern "C" void sim_scope_enter(int op) {
   TaskCtx* t = sim_cur();
-  if (t->scope++ == 0 && t->op != op) { t->op = op; t->op_allocs = 0; t->op_nt_allocs = 0; }
+  if (t->scope++ == 0 && t->op != op) { t->op = op; t->op_allocs = 0; t->op_nt_allocs = 0; t->op_cbs = 0; }
+}
+extern "C" int sim_cb_fault() {
+  TaskCtx* t = sim_cur();
+  if (t->scope <= 0) return 0;                 // the reference model's callbacks are never faulted
+  int64_t idx = t->op_cbs++;
+  if (t->op == t->fault_op && t->fault_kind == 2 && !t->fault_fired && idx == t->fault_alloc) { t->fault_fired = true; t->fault_guard = t->last_guard; return 1; }
+  return 0;
 }
 extern "C" void sim_scope_leave() {
   TaskCtx* t = sim_cur();
